@@ -233,6 +233,12 @@ fn ctl_programs() -> usize {
         ("x = upcase(downcase({ return \"z\" }))\n.", Ok("\"z\"")),
         ("x = (to_int({ return 6 }) ?? 1) + 1\n.", Ok("6")),
         ("x = if ({ return 2 }) { 1 }\n.", Ok("2")),
+        ("if ({ return 1 }; true) { 2 } else { 3 }", Ok("1")),
+        ("if (.l == \"i\" || { return \"kept\" }) { .t = true } else { .t = true }\n\"dropped\"", Ok("\"kept\"")),
+        ("if ({ abort }; true) { .a = 1 } else { .a = 2 }\n.", Err("ABORT")),
+        ("if (.n = to_int!(\"zz\"); .c = true; true) { .b = 1 } else { .b = 2 }\n.", Err("ERROR")),
+        ("if (.c = true; false) { 1 } else { .c }", Ok("true")),
+        ("x = if (y = 1; y == 2) { \"a\" }\nx", Ok("null")),
         ("o = map_keys({\"a\": 1, \"b\": 2}) -> |k| { if k == \"a\" { return \"first\" }; upcase(k) }\n.after = true\n[o, .after]", Ok("[{ \"B\": 2, \"first\": 1 }, true]")),
         ("o = map_values({\"a\": 1, \"b\": 2}) -> |v| { if v == 1 { return 10 }; v }\n.after = true\n[o, .after]", Ok("[{ \"a\": 10, \"b\": 2 }, true]")),
         ("o = filter({\"a\": 1, \"b\": 2}) -> |_k, v| { if v == 1 { return false }; true }\n.after = true\n[o, .after]", Ok("[{ \"b\": 2 }, true]")),
@@ -550,6 +556,71 @@ fn reported_paths() -> usize {
     bad
 }
 
+/// Operator typing over a small exhaustive domain: operand kinds are all non-empty subsets of
+/// {bytes, integer, float, boolean, null} declared for two event fields; for every operator whose
+/// expression the compiler accepts as infallible, every combination of member values must run without
+/// a runtime error (NaN excepted) and produce a value inside the reported kind.
+fn op_typing() -> usize {
+    use vrl::compiler::{compile_with_external, state::ExternalEnv, CompileConfig};
+    use vrl::value::kind::Collection;
+    use vrl::value::Kind;
+    let members: Vec<(fn() -> Kind, Value)> = vec![
+        (Kind::bytes, Value::from("s")), (Kind::integer, Value::Integer(0)), (Kind::float, Value::from_f64_or_zero(1.5)),
+        (Kind::boolean, Value::Boolean(false)), (Kind::null, Value::Null),
+    ];
+    let extra: Vec<Vec<Value>> = vec![vec![Value::from("")], vec![Value::Integer(7), Value::Integer(-3)], vec![Value::from_f64_or_zero(0.0), Value::from_f64_or_zero(-2.0)], vec![Value::Boolean(true)], vec![]];
+    let kind_of = |mask: u32| -> Kind { let mut k = Kind::never(); for (i, (f, _)) in members.iter().enumerate() { if mask & (1 << i) != 0 { k = k.union(f()); } } k };
+    let values_of = |mask: u32| -> Vec<Value> {
+        let mut v = vec![];
+        for (i, (_, val)) in members.iter().enumerate() { if mask & (1 << i) != 0 { v.push(val.clone()); v.extend(extra[i].iter().cloned()); } }
+        v
+    };
+    let ops = ["+", "-", "*", "/", "==", "!=", "<", "<=", ">", ">=", "||", "&&"];
+    let fns = vrl::stdlib::all();
+    let mut bad = 0;
+    for op in ops {
+        for m1 in 1u32..32 {
+            for m2 in 1u32..32 {
+                let mut known = BTreeMap::new();
+                known.insert("a".into(), kind_of(m1));
+                known.insert("b".into(), kind_of(m2));
+                let target = Kind::object(Collection::from_parts(known, Kind::undefined()));
+                let external = ExternalEnv::new_with_kind(target, Kind::object(Collection::empty()));
+                let src = format!(".r = .a {op} .b\n.r");
+                let Ok(res) = compile_with_external(&src, &fns, &external, CompileConfig::default()) else { continue };
+                let info = res.program.final_type_info();
+                let reported = info.result.kind().clone();
+                for v1 in values_of(m1) {
+                    for v2 in values_of(m2) {
+                        let mut obj = BTreeMap::new();
+                        obj.insert("a".into(), v1.clone());
+                        obj.insert("b".into(), v2.clone());
+                        let mut target = TargetValue { value: Value::Object(obj), metadata: Value::Object(BTreeMap::new()), secrets: Secrets::default() };
+                        let mut rt = Runtime::default();
+                        let case = format!("`.r = .a {op} .b` with .a: {} = {v1}, .b: {} = {v2}", kind_of(m1), kind_of(m2));
+                        match rt.resolve(&mut target, &res.program, &TimeZone::default()) {
+                            Ok(v) => {
+                                if reported.is_superset(&Kind::from(&v)).is_err() {
+                                    bad += 1;
+                                    if bad <= 12 { fail("op_typing", &case, &format!("result inside the reported kind `{reported}`"), &v.to_string()); }
+                                }
+                            }
+                            Err(e) => {
+                                let msg = e.to_string();
+                                if !msg.contains("NaN") {
+                                    bad += 1;
+                                    if bad <= 12 { fail("op_typing", &case, "accepted without error handling, so it must not fail at runtime", &msg); }
+                                }
+                            }
+                        }
+                    }
+                }
+            }
+        }
+    }
+    bad
+}
+
 fn main() {
     let unit = std::env::args().nth(1).unwrap_or_default();
     let bad = match unit.as_str() {
@@ -562,6 +633,7 @@ fn main() {
         "constants" => constants(),
         "target_faults" => target_faults(),
         "reported_paths" => reported_paths(),
+        "op_typing" => op_typing(),
         _ => {
             eprintln!("unknown witness unit {unit}");
             std::process::exit(2);
